@@ -98,6 +98,7 @@ class Run:
             st["events"] += 1
             if st["viol"]:
                 return
+            st["in_harness"] = True      # objects the reference model builds (independent kappa) are not the move's candidates
             try:
                 if kind == "proposal":
                     if st["expect_flat"]:
@@ -127,13 +128,15 @@ class Run:
             except Mismatch as m:
                 st["viol"] = (m.key, m.what)
                 raise C.Truncated("model mismatch")
+            finally:
+                st["in_harness"] = False
 
         # retry bound on candidate children constructed inside one move (makes waiting visible)
         orig_init = S.Sequence.__init__
         ctr = [0]
 
         def counting_init(self_, *a, **k):
-            if st["phase"] == "move":
+            if st["phase"] == "move" and not st.get("in_harness"):
                 ctr[0] += 1
                 if ctr[0] > self.retry * 4:
                     raise C.Truncated("retry bound inside a move")
@@ -385,6 +388,8 @@ def configs(tier):
     ]
     base.append(dict(name="KKKEEEGG/1bin/p2/1upd/run-twice", seq="KKKEEEGG", nbins=1, binmin=0, binmax=1, flatchk=2, flatcrit=0.9,
                      conv=math.exp(0.6), runs=2))
+    base.append(dict(name="KKKEEG/2bins[0,1]/p3/1upd/kappa>1-arrangements", seq="KKKEEG", nbins=2, binmin=0, binmax=1, flatchk=3, flatcrit=0.3,
+                     conv=math.exp(0.6)))
     base.append(dict(name="KKEEGGGG/3bins[.2,.8]/p3/1upd", seq="KKEEGGGG", nbins=3, binmin=0.2, binmax=0.8, flatchk=3, flatcrit=0.3,
                      conv=math.exp(0.6)))
     if tier == "quick":
@@ -481,6 +486,13 @@ def run(tier, seed, t0):
                    conv=math.exp(0.04))
     for st_ in range(3 if tier == "quick" else 8):
         shards.append((longcfg, 0, base_seed, 70 + st_, 4000, None))
+    slow = dict(name="KKKEEGGG/4bins[0,1]/p2/crit.9/slow-start", seq="KKKEEGGG", nbins=4, binmin=0, binmax=1, flatchk=2, flatcrit=0.9,
+                conv=math.exp(0.6))
+    slow2 = dict(name="KKKEEGGGG/1bin[.75,.875]/p1/slow-start", seq="KKKEEGGGG", nbins=1, binmin=0.75, binmax=0.875, flatchk=1, flatcrit=0.5,
+                 conv=math.exp(0.6))
+    for st_ in range(3 if tier == "quick" else 8):
+        shards.append((slow, 0, base_seed, 90 + st_, 1500, None))
+        shards.append((slow2, 0, base_seed, 95 + st_, 1500, None))
     if tier == "thorough":
         shards.append((dict(longcfg, name="KKEEGG/2bins[0,1]/p25/4upd/long", seq="KKEEGG", nbins=2, flatchk=25, flatcrit=0.3, conv=math.exp(0.07)),
                        0, base_seed, 80, 6000, None))
